@@ -210,6 +210,150 @@ def task_parameter_aliasing(ctx):
     ctx.undecided_clause("the implicit SCF adjoint (SCF.backward), degen_symeig.backward, Hessian symmetry; second-order/unrolled mode is covered only structurally")
 
 
+def replay_scf_adjoint(model):
+    """real code, scf_backward=1: reverse-mode derivative of the HOMO-LUMO gap and an atomic charge of AM1 formaldehyde with
+    respect to each learned one-centre two-electron parameter of the oxygen atom, against central differences."""
+    import torch
+    from seqm.basics import Energy, Pack_Parameters
+    from seqm.Molecule import Molecule
+    from seqm.seqm_functions.constants import Constants
+
+    torch.set_default_dtype(torch.float64)
+    species = torch.tensor([[8, 6, 1, 1]])
+    coords = torch.tensor([[[0.0, 0, 0], [1.22, 0.03, 0], [1.82, 0.94, 0.05], [1.82, -0.94, 0]]])
+
+    def outs(learned, mode):
+        params = {"method": "AM1", "scf_eps": 1e-11, "scf_converger": [2], "sp2": [False, 1e-5], "learned": list(learned.keys()), "pair_outer_cutoff": 1e10, "eig": True,
+                  "scf_backward": mode, "scf_backward_eps": 1e-12}
+        mol = Molecule(Constants(), params, coords.clone(), species, learned_parameters=dict(learned))
+        mol.verbose = False
+        out = Energy(params)(mol, learned_parameters=dict(learned), all_terms=True)
+        return {"gap": out[6].reshape(-1)[0], "q(O)": out[9].reshape(-1)[0]}
+
+    Z = species.reshape(-1)
+    rows, bad = [], False
+    for name in ("g_ss", "g_pp", "g_p2", "h_sp", "g_sp"):
+        x0 = Pack_Parameters({"method": "AM1", "elements": [0, 1, 6, 8], "learned": []})(Z, learned_params={})[0][name].clone()
+        x = x0.clone().requires_grad_(True)
+        o = outs({name: x}, 1)
+        for key in ("gap", "q(O)"):
+            g, = torch.autograd.grad(o[key], x, retain_graph=True)
+            h = 1e-4
+            xp, xm = x0.clone(), x0.clone()
+            xp[0] += h
+            xm[0] -= h
+            with torch.no_grad():
+                fd = float((outs({name: xp}, 0)[key] - outs({name: xm}, 0)[key]) / (2 * h))
+            rel = abs(float(g[0]) - fd) / max(abs(fd), 1e-12)
+            if rel > 1e-6:
+                bad = True
+            rows.append({"parameter": name + "[O]", "output": key, "reverse_mode": float(g[0]), "central_difference": fd, "relative_error": rel})
+    return {"reproduced": bad, "input": "AM1 H2CO, scf_backward = 1 (implicit adjoint), scf_eps 1e-11", "rows": [r for r in rows if r["relative_error"] > 1e-6][:8] or rows[:4]}
+
+
+def task_scf_adjoint_inputs(ctx):
+    """O4 (run-time contract, BOUNDED): whenever SCF.backward differentiates its re-evaluated SCF map with respect to several
+    variables in one torch.autograd.grad call, no variable's autograd history may contain another of them -- otherwise the
+    derivative returned for the upstream one already contains the path through the downstream one, and autograd adds that
+    path a second time when it propagates the downstream variable's gradient (M and w are functions of g_ss, h_sp, g_pp, g_p2).
+    The real code runs on real torch with a recorder around the module's `agrad`; the property checked is the topology of the
+    autograd graph, which does not depend on the numbers."""
+    import torch
+    import seqm.seqm_functions.scf_loop as S_
+    from seqm.basics import Energy, Pack_Parameters
+    from seqm.Molecule import Molecule
+    from seqm.seqm_functions.constants import Constants
+
+    ctx.under_contract("seqm.seqm_functions.scf_loop:SCF.backward", note="run-time contract on the calls of torch.autograd.grad made inside backward (bounded)")
+    ctx.under_contract("seqm.seqm_functions.scf_loop:scf_loop", note="call site of SCF.apply: M and w are computed from the same learned parameters that are passed next to them")
+    torch.set_default_dtype(torch.float64)
+    names = ["g_ss", "g_pp", "g_sp", "g_p2", "h_sp"]
+    species = torch.tensor([[8, 6, 1, 1]])
+    coords = torch.tensor([[[0.0, 0, 0], [1.22, 0.03, 0], [1.82, 0.94, 0.05], [1.82, -0.94, 0]]])
+    Z = species.reshape(-1)
+    tab = Pack_Parameters({"method": "AM1", "elements": [0, 1, 6, 8], "learned": []})(Z, learned_params={})[0]
+    learned = {n: tab[n].clone().requires_grad_(True) for n in names}
+    calls = []
+    real_agrad = S_.agrad
+
+    def history(t):
+        """ids of the leaf tensors and grad_fn nodes reachable from t's history (t itself excluded)"""
+        seen, leaves, stack = set(), set(), []
+        if t.grad_fn is not None:
+            stack.extend(fn for fn, _ in t.grad_fn.next_functions if fn is not None)
+        while stack:
+            fn = stack.pop()
+            if id(fn) in seen:
+                continue
+            seen.add(id(fn))
+            if hasattr(fn, "variable"):
+                leaves.add(id(fn.variable))
+            stack.extend(f for f, _ in fn.next_functions if f is not None)
+        return seen, leaves
+
+    def recorder(outputs, inputs, *a, **k):
+        ins = list(inputs) if isinstance(inputs, (list, tuple)) else [inputs]
+        if len(ins) > 1:
+            rec = []
+            for b in ins:
+                nodes, leaves = history(b)
+                for a_ in ins:
+                    if a_ is b:
+                        continue
+                    up = (id(a_) in leaves) if a_.grad_fn is None else (id(a_.grad_fn) in nodes)
+                    rec.append((a_, b, up))
+            calls.append((ins, rec))
+        return real_agrad(outputs, inputs, *a, **k)
+
+    params = {"method": "AM1", "scf_eps": 1e-9, "scf_converger": [2], "sp2": [False, 1e-5], "learned": names, "pair_outer_cutoff": 1e10, "eig": True, "scf_backward": 1, "scf_backward_eps": 1e-9}
+    import contextlib, io
+
+    S_.agrad = recorder
+    try:
+        with contextlib.redirect_stdout(io.StringIO()):
+            mol = Molecule(Constants(), params, coords.clone(), species, learned_parameters=dict(learned))
+            mol.verbose = False
+            out = Energy(params)(mol, learned_parameters=dict(learned), all_terms=True)
+            out[6].sum().backward()
+    finally:
+        S_.agrad = real_agrad
+    if not calls:
+        ctx.error("vacuous", "SCF.backward made no multi-variable autograd.grad call (is scf_backward=1 still routed through SCF.apply?)")
+        return
+    label = {id(v): k for k, v in learned.items()}
+    ins, rec = calls[-1]
+    pos_names = ["M", "w", "W", "g_ss", "g_pp", "g_sp", "g_p2", "h_sp"]
+
+    def nm(t, ins=ins):
+        if id(t) in label:
+            return label[id(t)]
+        k = [i for i, x in enumerate(ins) if x is t][0]
+        shape = tuple(t.shape)
+        kind = "M" if shape[-1] in (4, 9) else ("w" if shape[-1] in (10, 45) else "input#%d" % k)
+        return kind + str(list(shape))
+
+    n_pairs = 0
+    rep_cache = []
+
+    def rep():
+        if not rep_cache:
+            rep_cache.append(_quiet(replay_scf_adjoint))
+        return rep_cache[0]
+
+    for a_, b, up in rec:
+        n_pairs += 1
+        name = "SCF.backward.gradient-variables-are-mutually-independent[%s not in the history of %s]" % (nm(a_), nm(b))
+        if up:
+            ctx.fail(name, "the autograd history of %s (as unpacked from ctx.saved_tensors) contains %s: the derivative returned for %s already includes the path through %s, "
+                     "which autograd adds again when it propagates the gradient returned for %s" % (nm(b), nm(a_), nm(a_), nm(b), nm(b)),
+                     replay=rep(), witness_class="double-counted-path-through-derived-input", backend="bounded:runtime-contract")
+        else:
+            ctx.ok(name, "bounded:runtime-contract")
+    ctx.bounded.append({"what": "SCF.backward graph-independence contract", "bound": "one concrete run: AM1 H2CO, learned g_ss/g_pp/g_sp/g_p2/h_sp, scf_backward=1, restricted; %d ordered pairs of gradient variables in the last autograd.grad call" % n_pairs,
+                        "why_not_proved": "torch's autograd graph is outside the symbolic shim; the graph topology is the same for every input of this configuration, but other configurations (PM6, UHF) are not covered"})
+    ctx.undecided_clause("value of the implicit adjoint solve (fixed point reached, Anderson/Picard), second-order derivatives")
+
+
 def _quiet(fn):
     import contextlib, io
 
@@ -220,5 +364,5 @@ def _quiet(fn):
             return {"reproduced": False, "error": repr(exc)[:300]}
 
 
-TASKS_QUICK = ["additive_term_backward", "parameter_aliasing"]
+TASKS_QUICK = ["additive_term_backward", "parameter_aliasing", "scf_adjoint_inputs"]
 TASKS_THOROUGH = TASKS_QUICK
